@@ -168,6 +168,8 @@ func loadProg(repo, goos string) (*Prog, error) {
 	}
 	curProg = p
 	transparentMemo = map[*ssa.Function][]ssa.Value{}
+	mapEqMemo = map[*ssa.Function]bool{}
+	alwaysErrMemo = map[*ssa.Function]int{}
 	return p, nil
 }
 
